@@ -52,7 +52,8 @@ fn apply_step(t: &mut AffTree<2>, st: &Value) -> (Value, Value, Value) {
         "eliminate" => { let c = t.infeasible_elimination(); (none(), none(), json!({"nodes_checked": c.nodes_checked, "cached": c.cached_state, "skipped": c.skipped_nodes,
                          "inherited": c.parent_sol_inherited, "mirror": c.mirror_iter.len(), "lps": c.lps_solved, "lpf": c.lps_feasible, "lpi": c.lps_infeasible, "lpe": c.lps_error})) }
         "compose" | "compose_prune" => {
-            let r: AffTree<2> = build(st["rhs"].as_array().unwrap());
+            let mut r: AffTree<2> = build(st["rhs"].as_array().unwrap());
+            if st.get("rhs_elim").and_then(|v| v.as_bool()).unwrap_or(false) { r.infeasible_elimination(); } // the operand carries cached states
             let before = tree_json(&r, q);
             if op == "compose" { t.compose::<false, false>(&r); } else { t.compose::<true, false>(&r); }
             (before, tree_json(&r, q), none())
@@ -61,7 +62,8 @@ fn apply_step(t: &mut AffTree<2>, st: &Value) -> (Value, Value, Value) {
         "reduce" => { t.reduce(); (none(), none(), none()) }
         "neg" => { let x = std::mem::replace(t, AffTree::<2>::new(1)); *t = x.neg(); (none(), none(), none()) }
         "add" | "sub" | "mul" | "div" => {
-            let r: AffTree<2> = build(st["rhs"].as_array().unwrap());
+            let mut r: AffTree<2> = build(st["rhs"].as_array().unwrap());
+            if st.get("rhs_elim").and_then(|v| v.as_bool()).unwrap_or(false) { r.infeasible_elimination(); }
             let before = tree_json(&r, q);
             let x = std::mem::replace(t, AffTree::<2>::new(1));
             *t = match op { "add" => x.add(&r), "sub" => x.sub(&r), "mul" => x.mul(&r), _ => x.div(&r) };
